@@ -198,6 +198,7 @@ func vfFail(id string) {
 	panic(vfStop{"fail"})
 }
 func vfNote(s string) {}
+func vfMapOrder(on bool) {}
 func vfAllocCap(n int, id string) {}
 '''
 
